@@ -153,6 +153,8 @@ macro_rules! shared_types {
             "tup_u8_opt" => $f::<(u8, Option<u8>)>($a), "tup_opt_opt" => $f::<(Option<u8>, Option<String>)>($a), "tup1_opt" => $f::<(Option<i64>,)>($a),
             "vec_tup_opt" => $f::<Vec<(u8, Option<i8>)>>($a), "tup_unit_last" => $f::<(u8, ())>($a), "tup_nested_opt" => $f::<(u8, (u8, Option<bool>))>($a),
             "map_tup_opt" => $f::<BTreeMap<u8, (bool, Option<u16>)>>($a),
+            // keys that are not scalars (both codecs write them as they write the type anywhere else)
+            "map_tupkey" => $f::<BTreeMap<(u8, bool), u8>>($a), "map_unitkey" => $f::<BTreeMap<(), u8>>($a), "map_veckey" => $f::<BTreeMap<Vec<u8>, String>>($a),
             "wdeque_u16" => $f::<Wrapped<u16>>($a), "wdeque_str" => $f::<Wrapped<String>>($a), "tup_wdeque" => $f::<(Wrapped<u8>, u8)>($a),
             _ => $else
         }
@@ -282,8 +284,35 @@ fn op_serfail(k: &str, which: &str) -> String {
     format!("{} | {}", a, b)
 }
 
+/// `ikey <kind> <seed>`: a map whose KEYS are not scalars (tuples, unit, vectors, options, maps), built from the seed, through both codecs:
+/// the native and the bridge encoding are the same bytes, and each decoder gives the map back from them.  `ok <hex>` or what differed.
+fn op_ikey(kind: &str, seed: &str) -> String {
+    let mut x: u64 = match seed.parse::<u64>() { Ok(s) => s.wrapping_mul(0x9E3779B97F4A7C15) | 1, Err(_) => return "bad-op".into() };
+    let mut next = move || { x ^= x << 13; x ^= x >> 7; x ^= x << 17; x };
+    fn both<T>(m: T) -> String where T: Serialize + DeserializeOwned + minicbor::Encode<()> + for<'b> minicbor::Decode<'b, ()> + PartialEq + std::fmt::Debug {
+        let nb = match minicbor::to_vec(&m) { Ok(b) => b, Err(_) => return "native-encode-failed".into() };
+        let sb = match minicbor_serde::to_vec(&m) { Ok(b) => b, Err(e) => return format!("bridge-encode-failed {}", e).replace(' ', "_") };
+        if nb != sb { return format!("bytes native={} bridge={}", hex(&nb), hex(&sb)) }
+        match minicbor::decode::<T>(&nb) { Ok(v) if v == m => {} Ok(_) => return format!("native-decode-differs {}", hex(&nb)), Err(_) => return format!("native-decode-failed {}", hex(&nb)) }
+        match minicbor_serde::from_slice::<T>(&nb) { Ok(v) if v == m => {} Ok(_) => return format!("bridge-decode-differs {}", hex(&nb)), Err(_) => return format!("bridge-decode-failed {}", hex(&nb)) }
+        format!("ok {}", hex(&nb))
+    }
+    let n = (next() % 5) as usize;
+    match kind {
+        "tup" => both((0 .. n).map(|_| (((next() % 300) as u16, next() % 2 == 0), (next() % 256) as u8)).collect::<BTreeMap<(u16, bool), u8>>()),
+        "unit" => both((0 .. n.min(1)).map(|_| ((), (next() % 256) as u8)).collect::<BTreeMap<(), u8>>()),
+        "vec" => both((0 .. n).map(|_| ((0 .. next() % 4).map(|_| (next() % 256) as u8).collect::<Vec<u8>>(), format!("v{}", next() % 1000))).collect::<BTreeMap<Vec<u8>, String>>()),
+        "opt" => both((0 .. n).map(|_| (if next() % 3 == 0 { None } else { Some((next() % 256) as u8) }, (next() % 70000) as u32)).collect::<BTreeMap<Option<u8>, u32>>()),
+        "arr" => both((0 .. n).map(|_| ([(next() % 256) as u8, (next() % 30) as u8], next() % 2 == 0)).collect::<BTreeMap<[u8; 2], bool>>()),
+        "map" => both((0 .. n).map(|_| ((0 .. next() % 3).map(|_| ((next() % 50) as u8, (next() % 50) as u8)).collect::<BTreeMap<u8, u8>>(), (next() % 256) as u8)).collect::<BTreeMap<BTreeMap<u8, u8>, u8>>()),
+        "nested" => both((0 .. n).map(|_| ((next() % 256) as u8, (0 .. next() % 3).map(|_| (((next() % 9) as u8, ()), Some((next() % 256) as u8))).collect::<BTreeMap<(u8, ()), Option<u8>>>())).collect::<BTreeMap<u8, BTreeMap<(u8, ()), Option<u8>>>>()),
+        _ => "bad-op".into()
+    }
+}
+
 fn dispatch(w: &[&str]) -> String {
     if w.len() != 3 { return "bad-op".into() }
+    if w[0] == "ikey" { return op_ikey(w[1], w[2]) }
     if w[0] == "serfail" { return op_serfail(w[1], w[2]) }
     if w[0] == "ides2" { return op_ides2(w[1], w[2]) }
     if w[0] == "ideb" { return op_ideb(w[1], w[2]) }
